@@ -65,6 +65,11 @@ structure AppEx where
   msg : Bytes := []
 deriving DecidableEq, Repr
 
+/-- the struct with its non-optional fields at the IDL defaults (what `InitDefault` promises); the
+    optional map is not a defaulted field -/
+def Base.withDefaults (p : Base) : Base := { p with logID := [], caller := [], addr := [] }
+def BaseResp.withDefaults (p : BaseResp) : BaseResp := { p with statusMessage := [], statusCode := 0 }
+
 def Base.Eqv (a b : Base) : Prop :=
   a.logID = b.logID ∧ a.caller = b.caller ∧ a.addr = b.addr ∧ SMap.OptEqv a.extra b.extra
 def BaseResp.Eqv (a b : BaseResp) : Prop :=
